@@ -31,6 +31,7 @@ type c01Desc struct {
 	Seed int64   `json:"seed"`
 	Cfg  lab.Cfg `json:"cfg"`
 	Big  bool    `json:"big,omitempty"`
+	Many int     `json:"many,omitempty"` // >0: that many tiny blocks (batching loaders and writers cross their batch sizes)
 }
 
 // fakeNode lets the root-module writer (which wants format.Node) emit arbitrary blocks.
@@ -112,10 +113,29 @@ func seqSummary(s []refcar.Block) []string {
 
 func c01Content(d c01Desc) gen.Content {
 	r := gen.Rand(d.Seed)
-	return gen.MakeContent(r, gen.ContentOpts{
+	c := gen.MakeContent(r, gen.ContentOpts{
 		MinBlocks: 0, MaxBlocks: 9, MaxRoots: 60, Dups: true, Boundaries: true, BigBoundary: d.Big,
 		Block: gen.BlockOpts{MaxSize: 400},
 	})
+	if d.Many > 0 {
+		c.Blocks = c.Blocks[:0]
+		for i := 0; i < d.Many; i++ {
+			data := []byte{byte(i), byte(i >> 8), byte(d.Seed)}
+			dg, _ := refcar.Hash(0x12, data)
+			c.Blocks = append(c.Blocks, refcar.Block{Cid: refcar.MakeCidV1(0x55, 0x12, dg), Data: data})
+		}
+		if len(c.Roots) > 3 {
+			c.Roots = c.Roots[:3]
+		}
+		return c
+	}
+	if !d.Cfg.StoreID && r.Intn(6) == 0 {
+		// an identity block whose CID is longer than MaxIndexCidSize: with identity storing off it is
+		// skipped like any identity block (the limit is for indexed CIDs)
+		i := r.Intn(len(c.Blocks) + 1)
+		c.Blocks = append(c.Blocks[:i], append([]refcar.Block{gen.LongIdentityBlock(r)}, c.Blocks[i:]...)...)
+	}
+	return c
 }
 
 // writers: each returns the produced file bytes.
@@ -682,11 +702,18 @@ func genC01(g *mon.G) {
 			AllowDup: r.Intn(4) == 0,
 			StoreID:  r.Intn(2) == 0,
 		}
-		if !cfg.V1 {
+		if !cfg.V1 || r.Intn(2) == 0 { // paddings are also given in CARv1 mode, where they must change nothing
 			cfg.DataPad = dpads[r.Intn(len(dpads))]
 			cfg.IndexPad = ipads[r.Intn(len(ipads))]
 		}
 		g.Emit(c01Desc{Seed: r.Int63(), Cfg: cfg, Big: g.Thorough() && i%50 == 0 || i == 7})
+	}
+	// contents with about a thousand and more blocks (batch sizes of loaders: 1000)
+	for i, n := range []int{999, 1000, 1001, 1002, 2001, 2503, 4097} {
+		if i >= g.Pick(4, 7) {
+			break
+		}
+		g.Emit(c01Desc{Seed: r.Int63(), Cfg: lab.Cfg{V1: i%2 == 0, Sorted: i%3 == 0}, Many: n})
 	}
 }
 
